@@ -4,27 +4,41 @@ import os
 from vf import Inconclusive, parallel, require_clean, trace_slice
 
 CLAIM = {
-    "text": "Aggregators.tla states what the histogram counter, sub-key counter, table (incl. Trim), accumulating group and numerical aggregator hold after a history, once as an order-free bag fold and once as a state machine in which reading the aggregator (any accessor, any time) is an explicit stuttering step; AggregatorsImpl.tla transcribes the Go data structures (sorted sub-key list with re-indexed row vectors, cells with redundant row/column totals, Trim's nested map loops in every iteration order, value list sorted in place by Analyze, optionally a memoising ComputeMinMax, the accumulating group's ONE evaluation context shared by all Sample calls - match, current value, key lookup bound to the row written last - as the code resets and re-binds it, as a per-call context, and as three defective variants: lookup not cleared, current not cleared, memoising GetKey). Numerical values up to 10^11 are read into exact big integers and folded relative to a base (shift law: count, order statistics, min, max and mean shift with the base, the variance does not). TLC checks over all histories within the bounds - samples, trims and observation steps interleaved in every order: state machine = bag fold, permutation invariance, commutation of any two samples, totals = sums of cells, min/max with absent cells as 0, Trim post-condition, the simulation relation implementation-shaped => abstract after every interleaving (a memo dropped by SampleItem and Trim passes, one that Trim does not drop must fail: negative control; for the accumulating group the reset and the per-call context pass and whatever the context is left holding, the next sample's group is a function of that sample alone (AccKeyPure), while a stale lookup, a stale current value and a memoising GetKey must fail on configurations whose group expressions name a data column / {.} / an unknown key and whose data expressions read a column before and after its update: negative controls), rank definitions = sorted-list indices, exact moments of the full large values = shifted moments of the deltas, text <-> value round trip, and that the mean/stddev tolerances accept the exact value and reject neighbours. Every enumerated history (every prefix is a vector) is replayed on ONE long-lived real aggregator instance, reading every public accessor at each observation step and at the end and comparing with the value TLC computed, once feeding the samples as text and once through the typed entry points with the arguments the specification decoded; seeded long random histories over large alphabets and large numerical offsets, with observations and trims interleaved at random, are recorded from the real aggregators and validated by TLC (exact BigInt moments, rank order statistics).",
-    "note": "Bounded: exhaustive only for the listed alphabets/lengths, random beyond. Increments are limited to 9 digits and totals to +-10^9 (TLC integers), int64 overflow is outside the model. Numerical samples: decimal texts with <= 11 integer and <= 3 fraction digits, all values of one history within +-10^6 of its base. Mean is accepted within 10^-3 absolute, the sample standard deviation within 10^-3 absolute + 10^-6 relative, both plus a floating-point allowance of about 4*n*|base|*2^-52 (0 for base 0; 10^-3 at n = 588 for base 1.7*10^9); median = rank floor(n/2)+1, quantile(p) = rank min(floor(n*p)+1, n) of the (optionally reversed) ordered series, checked where floor(n*p) is not at the mercy of binary rounding (p a multiple of 1/8 or n*p not an integer); any most frequent value is accepted as mode. After a Trim only cells, rows, columns and min/max are specified (the row/column totals kept by the implementation are not part of the property). Sorted order of SubKeys() is a model invariant, not a verdict. A StatisticalAnalysis handle obtained before later samples is not specified (a fresh Analyze() is taken at every observation). Trusted: Go strconv, the expression engine for the accumulator's helper functions (sumi/maxi/mini semantics are modelled), TLC.",
+    "text": "Aggregators.tla states what the histogram counter, sub-key counter, table (incl. Trim), accumulating group and numerical aggregator hold after a history, a sample being split on the aggregator's delimiter - NUL, for the table the byte SEQUENCE (any length >= 1) it was constructed with, at its leftmost non-overlapping occurrences (AggSplit.tla: recursive and declarative definition of the cuts, Join o Split = id, Split o Join = id exactly on field lists whose joined text shows the delimiter only at the joints, fields never contain the delimiter, one-byte case = byte split; the Splitter object with Next / NextOk / Done written like the code, an equivalent rewrite, and three defective designs - first byte only, advance by one byte, delimiter as a byte set - that are invisible under one-byte delimiters and refuted by TLC under longer ones) - once as an order-free bag fold and once as a state machine in which reading the aggregator (any accessor, any time) is an explicit stuttering step; AggregatorsImpl.tla transcribes the Go data structures (sorted sub-key list with re-indexed row vectors, cells with redundant row/column totals, Trim's nested map loops in every iteration order, value list sorted in place by Analyze, optionally a memoising ComputeMinMax, the accumulating group's ONE evaluation context shared by all Sample calls - match, current value, key lookup bound to the row written last - as the code resets and re-binds it, as a per-call context, and as three defective variants: lookup not cleared, current not cleared, memoising GetKey). Numerical values up to 10^11 are read into exact big integers and folded relative to a base (shift law: count, order statistics, min, max and mean shift with the base, the variance does not). TLC checks over all histories within the bounds - samples, trims and observation steps interleaved in every order: state machine = bag fold, permutation invariance, commutation of any two samples, totals = sums of cells, min/max with absent cells as 0, Trim post-condition, the simulation relation implementation-shaped => abstract after every interleaving (a memo dropped by SampleItem and Trim passes, one that Trim does not drop must fail: negative control; for the accumulating group the reset and the per-call context pass and whatever the context is left holding, the next sample's group is a function of that sample alone (AccKeyPure), while a stale lookup, a stale current value and a memoising GetKey must fail on configurations whose group expressions name a data column / {.} / an unknown key and whose data expressions read a column before and after its update: negative controls), rank definitions = sorted-list indices, exact moments of the full large values = shifted moments of the deltas, text <-> value round trip, and that the mean/stddev tolerances accept the exact value and reject neighbours. Every (string, delimiter) pair of the splitter model is run on the real stringSplitter.Splitter under four call patterns (every answer of Next / NextOk / Done compared, two calls beyond exhaustion). Every enumerated history (every prefix is a vector; table histories under the delimiters NUL, '::', ', ', 'aab' and U+2192 with keys holding the delimiter's first bytes alone) is replayed on ONE long-lived real aggregator instance, reading every public accessor at each observation step and at the end and comparing with the value TLC computed, once feeding the samples as text and once through the typed entry points with the arguments the specification decoded; seeded long random histories over large alphabets and large numerical offsets, with observations and trims interleaved at random, are recorded from the real aggregators and validated by TLC (exact BigInt moments, rank order statistics).",
+    "note": "The table delimiter is any byte sequence of length >= 1 (an empty --delim is outside the specification); a sample is read as TEXT (a key that ends in the delimiter's first byte moves the cut), not as the field list it may have been joined from. Bounded: exhaustive only for the listed alphabets/lengths, random beyond. Increments are limited to 9 digits and totals to +-10^9 (TLC integers), int64 overflow is outside the model. Numerical samples: decimal texts with <= 11 integer and <= 3 fraction digits, all values of one history within +-10^6 of its base. Mean is accepted within 10^-3 absolute, the sample standard deviation within 10^-3 absolute + 10^-6 relative, both plus a floating-point allowance of about 4*n*|base|*2^-52 (0 for base 0; 10^-3 at n = 588 for base 1.7*10^9); median = rank floor(n/2)+1, quantile(p) = rank min(floor(n*p)+1, n) of the (optionally reversed) ordered series, checked where floor(n*p) is not at the mercy of binary rounding (p a multiple of 1/8 or n*p not an integer); any most frequent value is accepted as mode. After a Trim only cells, rows, columns and min/max are specified (the row/column totals kept by the implementation are not part of the property). Sorted order of SubKeys() is a model invariant, not a verdict. A StatisticalAnalysis handle obtained before later samples is not specified (a fresh Analyze() is taken at every observation). Trusted: Go strconv, the expression engine for the accumulator's helper functions (sumi/maxi/mini semantics are modelled), TLC.",
     "technique": "TLA+ model checking (TLC) with simulation-relation refinement and a negative control + model-history replay on long-lived instances + trace validation with exact rational arithmetic",
 }
 
-CONST = ("CONSTANTS Which = \"%s\"\n Profile = %d\n MaxLen = %d\n Memo = \"%s\"\n TrimFixed = %s\n AccCtx = \"%s\"\n"
+# TLC runs at a time x workers each (a loaded machine: C07_TLC_PAR=3 C07_TLC_WORKERS=1)
+PAR = int(os.environ.get("C07_TLC_PAR", "3"))
+TW = int(os.environ.get("C07_TLC_WORKERS", "2"))
+
+CONST = ("CONSTANTS Which = \"%s\"\n Profile = %d\n MaxLen = %d\n Memo = \"%s\"\n TrimFixed = %s\n AccCtx = \"%s\"\n Search = \"%s\"\n"
          " Elems <- MCElems\n Preds <- MCPreds\n AccCfg <- MCAccCfg\n")
+# field splitter variants of AggSplit.tla: the code is "index"; "cut" is an equivalent rewrite; the others are
+# negative controls (equal to the code for one-byte delimiters, refuted under a multi-byte delimiter)
+SPLITTERS = ("cut", "firstbyte", "advance1", "anybyte")
 
 
 def mc_cfg(which, prof, maxlen, invs, memo="none"):
     # Memo = "oldtrim": the negative control for Trim as it was before fix 1000522
     # which = "acc": the field selects the treatment of the shared evaluation context (AccCtx)
+    # Memo in SPLITTERS: the field selects the splitter variant (Search)
     tf = "FALSE" if memo == "oldtrim" else "TRUE"
-    accctx = memo if which == "acc" and memo != "none" else "reset"
-    memo = "none" if memo == "oldtrim" or which == "acc" else memo
-    return "SPECIFICATION Spec\n" + CONST % (which, prof, maxlen, memo, tf, accctx) + "INVARIANTS %s\nCHECK_DEADLOCK FALSE\n" % invs
+    search = memo if memo in SPLITTERS else "index"
+    accctx = memo if which == "acc" and memo != "none" and memo not in SPLITTERS else "reset"
+    memo = "none" if memo == "oldtrim" or which == "acc" or memo in SPLITTERS else memo
+    return "SPECIFICATION Spec\n" + CONST % (which, prof, maxlen, memo, tf, accctx, search) + "INVARIANTS %s\nCHECK_DEADLOCK FALSE\n" % invs
 
 
 def gen_cfg(which, prof, maxlen, invs, obs_repeat):
-    return ("INIT GInit\nNEXT GNext\n" + CONST % (which, prof, maxlen, "none", "TRUE", "reset") + " ObsRepeat = %s\n" % ("TRUE" if obs_repeat else "FALSE")
+    return ("INIT GInit\nNEXT GNext\n" + CONST % (which, prof, maxlen, "none", "TRUE", "reset", "index") + " ObsRepeat = %s\n" % ("TRUE" if obs_repeat else "FALSE")
             + "INVARIANTS %s\nCHECK_DEADLOCK FALSE\n" % invs)
+
+
+def split_cfg(variant, maxs, maxd, maxf, invs):
+    return ("SPECIFICATION SSpec\nCONSTANTS Search = \"%s\"\n MaxS = %d\n MaxD = %d\n MaxF = %d\nINVARIANTS %s\nCHECK_DEADLOCK FALSE\n"
+            % (variant, maxs, maxd, maxf, invs))
 
 
 TRACE_CFG = ("SPECIFICATION TSpec\nCONSTANTS Elems <- TrNone\n Preds <- TrNone\n AccCfg <- TrCfg\n"
@@ -40,6 +54,7 @@ def check(run):
         "accessors are specified as pure reads: Observe steps (all public accessors) may be interleaved anywhere; a StatisticalAnalysis handle kept across later samples is not specified",
         "after Trim only cells / rows / columns / min / max are specified; Trim's return value only bounded (>= selected existing cells, <= rows x columns)",
         "accumulating group: while the group of a sample is determined, data columns, {.} and unknown keys read as empty (the group is a function of the sample alone); in data expressions a group name or an unknown key reads as empty; the --sort expression is set and evaluated by Groups() but the ORDER of the listing is left to C13",
+        "table delimiter: a byte sequence of length >= 1, fixed at construction; samples are split at its leftmost non-overlapping occurrences; the empty delimiter is outside the domain; splitter model: all strings / delimiters over a two-letter alphabet within the listed lengths (random longer ones over other alphabets in B2)",
         "B3/B1 bounds: alphabets and history lengths as listed in tlc_runs",
     ]
     run.build_harness()
@@ -53,6 +68,8 @@ def check(run):
     # of a plan entry selects AccCtx (treatment of the context): reset (the code), fresh (refactoring), and the
     # negative controls stalelook / stalecur / memokey.
     GA = G + " AccKeyPure"
+    GT = G + " TotalsOK TrimOK"
+    SL = "SplitterOK DrainOK SplitLaw JoinLaw"
     A = "Sim AccKeyPure AccGroupsOK"
     if quick:
         plan = [
@@ -68,6 +85,22 @@ def check(run):
             ("mc", "acc", 4, 5, A, "reset", True), ("mc", "acc", 5, 5, A, "fresh", True),
             ("neg", "acc", 4, 3, "Sim", "stalelook", True), ("neg", "acc", 5, 3, "Sim", "stalecur", True),
             ("neg", "acc", 4, 3, "Sim", "memokey", True),
+            # tables constructed with a multi-byte delimiter ("::", ", ", "aab", U+2192): the fold laws with the
+            # delimiter as a sequence, the splitter as written and as an equivalent rewrite, and the three defective
+            # splitters, which are invisible under NUL (sub profile 2) and must break Sim here
+            ("gen", "tbl", 3, 3, GT, "none", False), ("gen", "tbl", 4, 3, GT, "none", False),
+            ("gen", "tbl", 5, 3, GT, "none", False), ("gen", "tbl", 6, 3, GT, "none", False),
+            ("mc", "tbl", 3, 3, T + " CommuteB", "cut", True), ("mc", "tbl", 5, 3, T + " CommuteB", "none", True),
+            ("mc", "sub", 2, 3, "Sim", "firstbyte", True),
+            ("neg", "tbl", 3, 2, "Sim", "firstbyte", True), ("neg", "tbl", 5, 2, "Sim", "advance1", True),
+            ("neg", "tbl", 4, 2, "Sim", "anybyte", True),
+        ]
+        # the splitter itself (AggSplit_MC): (kind, variant, MaxS, MaxD, MaxF, invariants, the one that must fail)
+        splits = [
+            ("split", "index", 5, 3, 3, SL + " Dump", None), ("split", "cut", 5, 3, 1, "SplitterOK DrainOK", None),
+            ("split", "firstbyte", 5, 1, 1, "SplitterOK DrainOK", None),
+            ("splitneg", "firstbyte", 4, 2, 1, "SplitterOK", "SplitterOK"), ("splitneg", "advance1", 4, 2, 1, "SplitterOK", "SplitterOK"),
+            ("splitneg", "anybyte", 4, 2, 1, "SplitterOK", "SplitterOK"), ("splitneg", "index", 1, 2, 2, "NaiveJoinLaw", "NaiveJoinLaw"),
         ]
     else:
         plan = [
@@ -92,23 +125,48 @@ def check(run):
             ("neg", "acc", 4, 3, "Sim", "stalelook", True), ("neg", "acc", 5, 3, "Sim", "stalelook", True),
             ("neg", "acc", 6, 3, "Sim", "stalelook", True), ("neg", "acc", 5, 3, "Sim", "stalecur", True),
             ("neg", "acc", 6, 3, "Sim", "stalecur", True), ("neg", "acc", 4, 3, "Sim", "memokey", True),
+            ("gen", "tbl", 3, 4, GT, "none", False), ("gen", "tbl", 4, 3, GT, "none", True),
+            ("gen", "tbl", 5, 4, GT, "none", False), ("gen", "tbl", 6, 3, GT, "none", True),
+            ("mc", "tbl", 3, 5, T + " CommuteB", "cut", True), ("mc", "tbl", 4, 4, T + " CommuteB", "cut", True),
+            ("mc", "tbl", 5, 5, T + " CommuteB", "none", True), ("mc", "tbl", 6, 4, T + " CommuteB", "none", True),
+            ("mc", "sub", 2, 4, "Sim", "firstbyte", True), ("mc", "tbl", 2, 4, "Sim", "advance1", True),
+            ("mc", "ctr", 2, 4, "Sim", "anybyte", True),
+        ] + [("neg", "tbl", pr, 2, "Sim", v, True) for pr in (3, 4, 5, 6) for v in ("firstbyte", "advance1", "anybyte")]
+        splits = [
+            ("split", "index", 7, 4, 3, SL + " Dump", None), ("split", "cut", 7, 4, 1, "SplitterOK DrainOK", None),
+            ("split", "firstbyte", 7, 1, 1, "SplitterOK DrainOK", None), ("split", "advance1", 7, 1, 1, "SplitterOK DrainOK", None),
+            ("split", "anybyte", 7, 1, 1, "SplitterOK DrainOK", None),
+            ("splitneg", "firstbyte", 5, 3, 1, "SplitterOK", "SplitterOK"), ("splitneg", "advance1", 5, 3, 1, "SplitterOK", "SplitterOK"),
+            ("splitneg", "anybyte", 5, 3, 1, "SplitterOK", "SplitterOK"), ("splitneg", "index", 1, 3, 3, "NaiveJoinLaw", "NaiveJoinLaw"),
         ]
     jobs = []
     for kind, which, prof, ml, invs, memo, rep in plan:
         if kind == "gen":
             jobs.append(lambda kind=kind, which=which, prof=prof, ml=ml, invs=invs, rep=rep: (kind, which, prof, run.tlc(
-                "Aggregators_Gen", gen_cfg(which, prof, ml, invs, rep), workers=2, xmx="3g", timeout=3000,
+                "Aggregators_Gen", gen_cfg(which, prof, ml, invs, rep), workers=TW, xmx="3g", timeout=3000,
                 label="Aggregators_Gen %s profile=%d MaxLen=%d%s [%s]" % (which, prof, ml, "" if rep else " (no o-o)", invs))))
         else:
             jobs.append(lambda kind=kind, which=which, prof=prof, ml=ml, invs=invs, memo=memo: (kind, which, prof, run.tlc(
-                "AggregatorsImpl", mc_cfg(which, prof, ml, invs, memo), workers=2, xmx="3g", timeout=3000,
+                "AggregatorsImpl", mc_cfg(which, prof, ml, invs, memo), workers=TW, xmx="3g", timeout=3000,
                 label="AggregatorsImpl %s profile=%d MaxLen=%d %s=%s [%s]%s" % (
-                    which, prof, ml, "AccCtx" if which == "acc" else "Memo", memo, invs, " negative control: must be violated" if kind == "neg" else ""))))
+                    which, prof, ml, "Search" if memo in SPLITTERS else "AccCtx" if which == "acc" else "Memo", memo, invs, " negative control: must be violated" if kind == "neg" else ""))))
+    for kind, variant, maxs, maxd, maxf, invs, must in splits:
+        jobs.append(lambda kind=kind, variant=variant, maxs=maxs, maxd=maxd, maxf=maxf, invs=invs, must=must: (kind, "split", must, run.tlc(
+            "AggSplit_MC", split_cfg(variant, maxs, maxd, maxf, invs), workers=TW, xmx="2g", timeout=3000,
+            label="AggSplit_MC splitter=%s strings<=%d delimiters<=%d [%s]%s" % (
+                variant, maxs, maxd, invs, " negative control: must be violated" if must else ""))))
     vec_path = os.path.join(run.scratch, "c07-vectors.ndjson")
     nvec, ntrim, nobsv, per = 0, 0, 0, {}
     acccfg = {}
     with open(vec_path, "w") as f:
-        for kind, which, prof, r in parallel(jobs, 3):
+        for kind, which, prof, r in parallel(jobs, PAR):
+            if kind == "splitneg":
+                # a splitter that looks for the delimiter's first byte only, advances by one byte, or reads the
+                # delimiter as a set of bytes must be refuted as soon as delimiters have two bytes; "fields without
+                # the delimiter read back after Join" is NOT a law of multi-byte delimiters
+                if prof not in r.violated:
+                    raise Inconclusive("negative control passed (AggSplit_MC): %s not violated\n%s" % (prof, r.out[-2000:]))
+                continue
             if kind == "neg":
                 # a ComputeMinMax memo that Trim does not drop must break the simulation relation
                 # (sample, observe, trim, observe), and so must Trim as it was before fix 1000522, and an
@@ -118,8 +176,8 @@ def check(run):
                 if "Sim" not in r.violated:
                     raise Inconclusive("negative control passed (%s profile %d): Sim not violated\n%s" % (which, prof, r.out[-2000:]))
                 continue
-            require_clean(run, r, "%s %s profile %d" % (kind, which, prof))
-            if kind != "gen":
+            require_clean(run, r, "%s %s profile %s" % (kind, which, prof))
+            if kind != "gen" and not (kind == "split" and "VFJ " in r.out):
                 continue
             for line in r.out.splitlines():
                 if not line.startswith('"VFJ '):
@@ -134,7 +192,7 @@ def check(run):
                     nobsv += 1
                 if which == "acc" and str(prof) not in acccfg:
                     acccfg[str(prof)] = json.loads(text)["cfg"]
-    if nvec < 20000 or ntrim < 1000 or nobsv < 5000 or len(per) < 5 or len(acccfg) < 6:
+    if nvec < 20000 or ntrim < 1000 or nobsv < 5000 or len(per) < 6 or len(acccfg) < 6 or per.get("split", 0) < 500:
         raise Inconclusive("generator produced too little: %d vectors %s, %d with trims, %d with observation steps" % (
             nvec, per, ntrim, nobsv))
     run.cov["b1_vectors_with_observation_steps"] = nobsv
@@ -161,6 +219,11 @@ def check(run):
     # ---- B2: long seeded random histories recorded from the real aggregators, validated by TLC
     cfgp = os.path.join(run.scratch, "c07-acccfg.json")
     json.dump(acccfg, open(cfgp, "w"))
+    if os.environ.get("C07_SAVE_DIR"):      # development aid: keep the TLC-generated inputs of the drivers
+        import shutil
+        os.makedirs(os.environ["C07_SAVE_DIR"], exist_ok=True)
+        shutil.copy(vec_path, os.environ["C07_SAVE_DIR"])
+        shutil.copy(cfgp, os.environ["C07_SAVE_DIR"])
     tr = os.path.join(run.scratch, "c07-trace.ndjson")
     run.drv(["trace", "-out", tr, "-acccfg", cfgp, "-scale", 1 if quick else 4])
     r = run.tlc("Aggregators_Trace", TRACE_CFG, files=[("trace.ndjson", tr)], workers=1, timeout=3000,
@@ -193,5 +256,5 @@ def check(run):
     run.cov["rule"] = ("B3: all histories within the bounds; B1: one vector per enumerated history of samples / trims / "
                        "observation steps (every prefix is its own vector), replayed on one long-lived instance per entry "
                        "point (text, typed), all accessors compared at every observation step and at the end, non-trivial = "
-                       "history of >= 2 steps; B2: seeded random histories (%d traces, 7..10^4 samples each, numerical bases up "
+                       "history of >= 2 steps (splitter vectors: >= 2 fields); B2: 4 batches of 60 random Splitter{S, Delim} runs and seeded random histories (%d traces, 7..10^4 samples each, numerical bases up "
                        "to 10^10), non-trivial = every recorded observation (all accessors)" % ntr)
